@@ -5,7 +5,7 @@ import json
 import os
 import re
 
-REPO_SRC = "/repo/src"
+REPO_SRC = os.path.join(os.environ.get("CFVERIF_REPO", "/repo"), "src")
 SKIP_DIRS = ("bin",)
 
 PANIC_TOKENS = [
